@@ -22,42 +22,122 @@ def stmt_or_for(n):
 def ob_search_order(ctx, res):
     """C03-O1 / C05-O1: children visited depth-first in stored order; blocks appended in visit order"""
     fn = ctx.ast.fn(R, "next", impl="CirTreeBlockSearchIter")
-    ms = {}
-    for n in walk_no_nested_fn(fn.body):
-        if n.k == "mcall" and up(strip(n["recv"])) == "self.remaining_childblocks":
-            ms.setdefault(n["method"], []).append(n)
-    if set(ms) != {"pop_front", "push_front"} or len(ms["pop_front"]) != 1 or len(ms["push_front"]) != 1:
-        res.fail("searchOrder/methods", fn, "the pending-node queue must only be used with pop_front + push_front (depth-first, stored order); methods: %s" % sorted(ms))
-        return
-    pf = ms["push_front"][0]
-    lp = pf.parent
-    while lp is not None and lp.k != "for":
-        lp = lp.parent
-    if lp is None or not re.fullmatch(r"(\w+)\.into_iter\(\)\.rev\(\)", up(strip(lp["iter"]))):
-        res.fail("searchOrder/rev", pf, "children must be pushed to the front in REVERSE so that they are popped in stored order; loop iterates `%s`" % (up(lp["iter"]) if lp is not None else "?"))
-        return
-    coll = re.fullmatch(r"(\w+)\.into_iter\(\)\.rev\(\)", up(strip(lp["iter"]))).group(1)
-    b = binding_before(fn, coll, lp)
-    if b is None or b[0] != "let" or "blocks_for_cir_tree_node(" not in up(b[1]["init"]):
-        res.fail("searchOrder/source", lp, "the children pushed must be those returned for the node just popped")
-        return
-    bc = list(calls(fn.body, method="blocks_for_cir_tree_node"))[0]
-    a = [origin(fn, x) for x in bc["args"]]
-    if a[1] != "self.remaining_childblocks.pop_front()" or [x.split(".")[-1] for x in a[2:]] != ["chrom_ix", "start", "end"] or not a[0].endswith("endianness"):
-        res.fail("searchOrder/args", bc, "the node popped and the iterator's own (chrom, start, end) must be passed on; got %s" % a)
-        return
-    res.ok(fn, "search: pop_front a node; its overlapping children are pushed to the front in reverse (visited next, in stored order); blocks yielded per node")
+    from ..rules.interp import Interp, NotPure
+    # the search step is evaluated on a small index tree (node offsets and blocks are atoms; the queue and the node reader are mocked):
+    # the blocks must come out in stored (depth-first, left-to-right) order, every node visited once with the iterator's own query
+    TREE = {"R": (["A", "B", "C"], []), "A": (["A1", "A2"], []), "A1": ([], ["a1", "a1'"]), "A2": ([], ["a2"]), "B": (["B1"], []), "B1": ([], ["b1"]), "C": (["C1"], []), "C1": ([], ["c1"])}
+    for fail_at in (None, "A2"):
+        visited = []
+
+        def method(m, recv, args, visited=visited, fail_at=fail_at):
+            if isinstance(recv, dict) and recv.get("what") == "queue":
+                q = recv["q"]
+                if m == "pop_front" and not args:
+                    return ("some", q.pop(0)) if q else None
+                if m == "pop_back" and not args:
+                    return ("some", q.pop()) if q else None
+                if m == "push_front" and len(args) == 1:
+                    q.insert(0, args[0])
+                    return None
+                if m == "push_back" and len(args) == 1:
+                    q.append(args[0])
+                    return None
+                if m in ("is_empty",) and not args:
+                    return not q
+                if m == "len" and not args:
+                    return len(q)
+            if recv == "FILE" and m == "blocks_for_cir_tree_node" and len(args) == 5:
+                visited.append(tuple(args))
+                if args[1] == fail_at:
+                    return ("err", "E")
+                ch, bl = TREE[args[1]]
+                return ("some", (list(ch), list(bl)))
+            if isinstance(recv, list):
+                if m in ("into_iter", "iter", "copied", "cloned", "drain") and len(args) <= 1:
+                    return list(recv)
+                if m == "rev" and not args:
+                    return list(reversed(recv))
+                if m == "is_empty" and not args:
+                    return not recv
+            raise NotPure("method %s" % m)
+        me = {"__ref": True, "remaining_childblocks": {"__ref": True, "what": "queue", "q": ["R"]}, "file": "FILE", "endianness": "ENDIAN", "chrom_ix": "C", "start": "S", "end": "E"}
+        out, err = [], None
+        try:
+            for _ in range(len(TREE) + 2):
+                got = Interp(ctx.ast, R, extern={"None": None, "method": method}, max_steps=20000).call(fn, [me])
+                if got is None:
+                    break
+                if got[0] == "some" and isinstance(got[1], tuple) and got[1][0] == "err":
+                    err = got[1]
+                    break
+                out += list(got[1][1])
+        except NotPure as e:
+            res.undecided("searchOrder/not-evaluable", fn, "CirTreeBlockSearchIter::next is outside the fragment the rule evaluates (%s)" % e)
+            return
+        bad_args = [v for v in visited if v[0] != "ENDIAN" or list(v[2:]) != ["C", "S", "E"]]
+        if bad_args:
+            res.fail("searchOrder/args", fn, "every node must be read with the iterator's own (endianness, chrom, start, end); got %s" % (bad_args[0],))
+            return
+        if fail_at is None:
+            if sorted(v[1] for v in visited) != sorted(TREE) or out != ["a1", "a1'", "a2", "b1", "c1"] or err is not None:
+                res.fail("searchOrder/methods", fn, "every node must be visited once and the blocks come out in stored order: nodes visited %s, blocks yielded %s (required a1, a1', a2, b1, c1)" % ([v[1] for v in visited], out))
+                return
+        else:
+            if err != ("err", "E") or [b_ for b_ in out if b_ not in ("a1", "a1'")]:
+                res.fail("searchOrder/error", fn, "a node read error must be yielded, not skipped: yielded %s then %s" % (out, err))
+                return
+    res.ok(fn, "search step evaluated on an 8-node balanced index tree: every node visited once, with the iterator's own query; blocks yielded in that order; a read error is yielded")
     # search_cir_tree_inner collects in iteration order, starting from the root offset
     si = ctx.ast.fn(R, "search_cir_tree_inner")
-    t = up(si.body)
-    if "remaining_childblocks.push_front(at)" not in t or not re.search(r"for (\w+) in iter \{let \1 = \1\?; blocks\.extend\(\1\);?\}", t):
-        res.fail("searchOrder/collect", si, "blocks must be appended in visit order starting from the root node")
-        return
-    it = [n for n in walk_no_nested_fn(si.body) if n.k == "struct" and n["path"].endswith("CirTreeBlockSearchIter")]
-    f = {x["name"]: up(strip(x["e"])) for x in it[0]["fields"]} if it else {}
-    if [f.get(k) for k in ("chrom_ix", "start", "end", "endianness")] != ["chrom_ix", "start", "end", "endianness"]:
-        res.fail("searchOrder/iter-fields", si, "the search iterator must carry the query unchanged")
-        return
+    for with_err in (False, True):
+        seen = {}
+
+        def method(m, recv, args):
+            if isinstance(recv, dict) and recv.get("what") == "queue":
+                if m in ("push_front", "push_back") and len(args) == 1:
+                    recv["q"].insert(0, args[0]) if m == "push_front" else recv["q"].append(args[0])
+                    return None
+            if isinstance(recv, list):
+                if m == "extend" and len(args) == 1 and isinstance(args[0], list):
+                    recv.extend(args[0])
+                    return None
+                if m == "push" and len(args) == 1:
+                    recv.append(args[0])
+                    return None
+                if m in ("into_iter", "iter") and not args:
+                    return list(recv)
+            raise NotPure("method %s" % m)
+
+        def call(path, args):
+            if path.split("::")[-1] in ("with_capacity", "new") and ("VecDeque" in path or "Vec" in path):
+                return {"__ref": True, "what": "queue", "q": []} if "VecDeque" in path else []
+            return NotImplemented
+
+        def macro(n, args):
+            if n["path"] in ("vec", "smallvec"):
+                return []
+            raise NotPure("macro " + n["path"])
+
+        def iterate(v, seen=seen, with_err=with_err):
+            if isinstance(v, dict) and v.get("__type") == "CirTreeBlockSearchIter":
+                seen.update(v)
+                return [("some", ["b1", "b2"])] + ([("err", "E")] if with_err else []) + [("some", ["b3"])]
+            raise NotPure("iteration over %r" % (type(v).__name__,))
+        try:
+            got = Interp(ctx.ast, R, extern={"None": None, "method": method, "call": call, "macro": macro, "iterate": iterate}).call(si, ["ENDIAN", "FILE", "AT", "C", "S", "E"])
+        except NotPure as e:
+            res.undecided("searchOrder/collect", si, "search_cir_tree_inner is outside the fragment the rule evaluates (%s)" % e)
+            break
+        q = seen.get("remaining_childblocks")
+        if not seen or not isinstance(q, dict) or q.get("q") != ["AT"]:
+            res.fail("searchOrder/collect", si, "the search must start from the root node offset alone; pending nodes at start: %s" % (q.get("q") if isinstance(q, dict) else q))
+            return
+        if [seen.get(k) for k in ("chrom_ix", "start", "end", "endianness", "file")] != ["C", "S", "E", "ENDIAN", "FILE"]:
+            res.fail("searchOrder/iter-fields", si, "the search iterator must carry the query unchanged; carries %s" % {k: seen.get(k) for k in ("chrom_ix", "start", "end", "endianness")})
+            return
+        if (not with_err and got != ("some", ["b1", "b2", "b3"])) or (with_err and got != ("err", "E")):
+            res.fail("searchOrder/collect", si, "blocks must be appended in visit order and a node error returned; got %s" % (got,))
+            return
     res.ok(si, "search_cir_tree_inner: root first, blocks appended in visit order, query carried unchanged")
     # nodes_overlapping pushes in iteration order
     no = ctx.ast.fn(R, "nodes_overlapping")
